@@ -1,6 +1,6 @@
 pub use crate::oracle::*;
 pub use crate::spec;
-pub use crate::{split_on, do_block, do_block_b2b, do_block_inout, do_blocks, do_blocks_b2b, do_blocks_inout, do_oneshot, do_oneshot_b2b};
+pub use crate::{do_closure, split_on, do_block, do_block_b2b, do_block_inout, do_blocks, do_blocks_b2b, do_blocks_inout, do_oneshot, do_oneshot_b2b};
 pub use cipher::{
     array::Array, consts::*, crypto_common::InnerInit, AsyncStreamCipher, BlockModeDecrypt,
     BlockModeEncrypt, InnerIvInit, IvState, KeyInit, KeyIvInit, SeekNum, StreamCipher,
@@ -68,4 +68,11 @@ macro_rules! split_on {
             $l += 1;
         }
     }};
+}
+
+/// Feed blocks through a custom closure using the backend's `*_inplace` entry points.
+#[macro_export]
+macro_rules! do_closure {
+    (enc, $m:expr, $x:expr) => { $m.encrypt_with_backend($crate::common::InplaceEnc { blocks: $x }) };
+    (dec, $m:expr, $x:expr) => { $m.decrypt_with_backend($crate::common::InplaceDec { blocks: $x }) };
 }
